@@ -19,7 +19,7 @@ LEVEL_TEXT = ("TLC checks that the PlusCal mechanism model of AsyncLoop.h (one l
 LEVEL_NOTE = ("bounded scripts (<= 3 calls quick, <= 4 thorough, + destroy) in the exhaustive part; sequentially consistent atomics assumed by the "
               "mechanism model (the header uses seq_cst std::atomic; AsyncLoopTSO.tla shows the handshake needs them, and the hook-free stress "
               "plan looks for weakened orderings on this x86 machine only - other architectures' reorderings are not observable here); bounded-time clause checked as: with the loop thread given every step it asks for, "
-              "the body is entered (serialised modes) / within 2 s (free-running); trusted: TLC, the schedule controller, stamps taken under one mutex")
+              "the body is entered (serialised modes) / within 6 s (free-running); trusted: TLC, the schedule controller, stamps taken under one mutex")
 TECHNIQUE = ("PlusCal mechanism model refines TLA+ contract (TLC, incl. liveness and negative controls); TLC-derived schedules forced on the real "
              "code through guarded hook points; TLC trace validation of recorded contract events and steps")
 
@@ -330,7 +330,7 @@ def run(chk, replay=None):
     for backend in build.BACKENDS:
         bexe = exe if backend == "TBB" else build.build("drv_asyncloop", backend=backend)
         methods = ["THREAD"] if backend == "Debug" else ["THREAD", "TASK"]
-        execs = [{"method": rnd.choice(methods), "script": rand_script(rnd, 6), "mode": "free", "seed": rnd.randint(1, 10 ** 6), "sched": [], "settle_ms": 2000}
+        execs = [{"method": rnd.choice(methods), "script": rand_script(rnd, 6), "mode": "free", "seed": rnd.randint(1, 10 ** 6), "sched": [], "settle_ms": 6000}
                  for _ in range(nfree)]
         res = run_driver(bexe, execs, "c03-free-" + backend, timeout=180, max_hangs=2)
         execs = [e for i, e in enumerate(execs) if not res[i].get("skipped")]
